@@ -138,6 +138,44 @@ static void chain_check(void)
 	if (i != chain_n) { char b[64]; sprintf(b, "walked=%ld built=%ld", i, chain_n); fail("chain-length-changed", -1, b); }
 }
 
+/* A comb: W chains of D blocks each (linked through the first word), their heads in one array block that is the only root.
+ * Many pieces at the same depth: whatever the marker uses to remember pending work is exercised at scale. */
+static Pointer		*comb_arr;
+static long		comb_w, comb_d;
+
+static void comb_build(long w, long d)
+{
+	long i, k;
+	comb_w = w; comb_d = d;
+	comb_arr = (Pointer *) stoAlloc(OB_Other, w * sizeof(Pointer)); nalloc++;
+	for (i = 0; i < w; i++) comb_arr[i] = 0;
+	chain_bytes += stoSize((Pointer) comb_arr);
+	for (i = 0; i < w; i++) {
+		Pointer next = 0;
+		for (k = d; k >= 1; k--) {
+			long *q = (long *) stoAlloc(OB_Other, 24); nalloc++;
+			q[0] = (long) next; q[1] = i * 1000003 + k; q[2] = 0;
+			next = (Pointer) q; comb_arr[i] = next;
+			chain_bytes += stoSize((Pointer) q);
+		}
+	}
+}
+
+static void comb_check(void)
+{
+	long i, k;
+	if (!stoIsPointer((Pointer) comb_arr)) fail("comb-array-not-a-block", -1, "");
+	for (i = 0; i < comb_w; i++) {
+		long *q = (long *) comb_arr[i];
+		for (k = 1; q; k++, q = (long *) q[0]) {
+			char b[96];
+			if (!stoIsPointer((Pointer) q)) { sprintf(b, "chain=%ld node=%ld", i, k); fail("comb-node-not-a-block", -1, b); }
+			if (q[1] != i * 1000003 + k) { sprintf(b, "chain=%ld node=%ld word=%ld", i, k, q[1]); fail("comb-contents-changed", -1, b); }
+		}
+		if (k - 1 != comb_d) { char b[96]; sprintf(b, "chain=%ld walked=%ld built=%ld", i, k - 1, comb_d); fail("comb-length-changed", -1, b); }
+	}
+}
+
 static void conservation(void)
 {
 	unsigned long live = 0, acct = stoBytesAlloc - stoBytesFree - stoBytesGc; int s;
@@ -197,7 +235,7 @@ static int run_history(FILE *in)
 		if (!strcmp(op, "end")) { got_end = 1; continue; }
 		if (!strcmp(op, "mode")) { continue; }
 		if (!strcmp(op, "demand")) { demand = 1; stoCtl(StoCtl_GcLevel, StoCtl_GcLevel_Demand); continue; }
-		if (strncmp(op, "chain", 5) && (s < 0 || s >= NS)) fail("harness-bad-slot", -1, line);
+		if (strncmp(op, "chain", 5) && strncmp(op, "comb", 4) && (s < 0 || s >= NS)) fail("harness-bad-slot", -1, line);
 		if (!strcmp(op, "a")) {
 			char *p;
 			if (sh_addr[s]) fail("harness-slot-busy", s, "");
@@ -262,6 +300,12 @@ static int run_history(FILE *in)
 			*(Pointer *) PTR(s) = 0; sh_link[s] = -1;
 		} else if (!strcmp(op, "chain")) {		/* chain N SZ LASTWORD */
 			chain_build(a, b, c);
+		} else if (!strcmp(op, "comb")) {		/* comb W D */
+			comb_build(a, b);
+		} else if (!strcmp(op, "combcheck")) {
+			comb_check();
+		} else if (!strcmp(op, "combdrop")) {
+			lostbytes += chain_bytes; chain_bytes = 0; comb_arr = 0; comb_w = 0;
 		} else if (!strcmp(op, "chaincheck")) {
 			chain_check();
 		} else if (!strcmp(op, "chaindrop")) {
